@@ -440,6 +440,13 @@ class Prov:
                     e0 = self._project(base, pp, block, idx, depth)
                     return E('phi', None, [e0] + [self._project(self.rvalue(st['rv'], b, i, depth + 1, None), pp[2:], block, idx, depth) for (b, i, st, n) in stores if n == 2])
         base = self.local(pl['l'], block, idx, depth)
+        if VERSIONED and base.k == 'local' and not any(isinstance(q, dict) and ('idx' in q or 'cidx' in q) for q in pl['p']) and 'deref' not in pl['p'] \
+                and self.has_partial_defs(pl['l']):
+            # the whole object (or a field of it) is read -- copied, moved, borrowed for a call: the memory version it has
+            # at this point (which of its element stores have happened)
+            rs = self.reach_root(self.root_of(pl['l'], pl['p'], block, idx), None, block, idx)
+            if rs is not None and rs != ('E',):
+                base = E(base.k, base.name, base.args, base.site, base.ty, dict(base.c or {}, reach=rs))
         return self._project(base, pl['p'], block, idx, depth, pl['l'])
 
     # ---- memory versions: element stores an element read may see --------------------------------------------------
@@ -563,17 +570,21 @@ class Prov:
         that may write the element -- 'E' (the object as it was created, assigned as a whole or passed in) or (block, idx)
         of an element store that may alias it or of a call holding `&mut` to the object -- as a sorted tuple.  Two reads
         with the same version set see the same memory.  None when the object is never written element-wise here."""
-        fn = self.fn
         root = self.root_of(l, before, block, idx)
+        ci = proj.get('cidx') if 'cidx' in proj and not proj.get('from_end') else None
+        if 'idx' in proj:
+            ci = self._const_local(proj['idx'], block, idx)
+        return self.reach_root(root, ci, block, idx, calls_only)
+
+    def reach_root(self, root, ci, block, idx, calls_only=False):
+        """the version set of element ci (None: any element) of the object `root` at (block, idx)"""
+        fn = self.fn
         stores = [s_ for s_ in self.elem_stores() if self._roots_alias(s_[2], root)]
         if calls_only:
             # direct field stores are handled by store->load forwarding; what is left are calls that may write the field
             stores = [s_ for s_ in stores if isinstance(s_[5], str)]
         if not any(not s_[4] for s_ in stores):
             return None
-        ci = proj.get('cidx') if 'cidx' in proj and not proj.get('from_end') else None
-        if 'idx' in proj:
-            ci = self._const_local(proj['idx'], block, idx)
         at = {}
         for s_ in stores:
             at.setdefault(s_[0], []).append(s_)
